@@ -14,7 +14,7 @@ func init() {
 		Technique:   "guarded-sink reachability on RevertToRevision, doInstall and doLinkSnap; must-pass-through of the revert-status update on the revert branch; loop skip-discipline on SnapState.Block",
 		Explanation: "Structural necessary conditions for 'revert switches in place and blocks the reverted-from revisions': (R1) RevertToRevision reaches doInstall only across current != requested, snap active and the requested revision being in the sequence, with Flags.Revert set on the way; Revert without a previous revision fails; (R2) doLinkSnap changes the order of the kept revisions (element stores / copy into Sequence.Revisions) only when the task is not a revert, and appends only when the candidate is not yet kept; (R3) doInstall creates the copy-snap-data task only when not reverting; (R4) on the revert branch of doLinkSnap every path to the state write updates RevertStatus for the revision reverted from - NotBlocked exactly under snapsup.RevertStatus==NotBlocked, otherwise the entry is deleted; (R5) SnapState.Block lists every revision after the current one in sequence order, skipping one only across RevertStatus[rev]==NotBlocked, with no early exit; (R6) undoLinkSnap puts the revert status back for a revert (shared with C10-R2).",
 		NotDecided:  "how Block() is consumed by the refresh-candidate filtering; the choice of the previous revision; data of the reverted-to revision.",
-		Run:         runC13,
+		Run:         func(c *Ctx) { runC13(c); runC13x(c) },
 	})
 }
 
